@@ -7,6 +7,8 @@ from types import MethodType
 from itertools import chain
 from functools import partial
 
+import numpy as np
+
 from openmdao.core.implicitcomponent import ImplicitComponent
 from openmdao.utils.om_warnings import issue_warning
 from openmdao.utils.jax_utils import jax, jit, jnp, _jax_register_pytree_class, \
@@ -434,6 +436,9 @@ class JaxImplicitComponent(ImplicitComponent):
         """
         J = self._jac_func_(self._tangents['rev'], tuple(chain(inputs.values(), outputs.values())))
         J = _jax2np(J).T
+        # columns come back in compute_primal order (inputs, outputs); the jacobian has outputs first
+        nin = len(self._inputs)
+        J = np.hstack((J[:, nin:], J[:, :nin]))
         if self._coloring_info.coloring is not None:
             J = self._coloring_info.coloring._expand_jac(J, 'rev')
             partials.set_csc_jac(self, J)
@@ -461,9 +466,9 @@ class JaxImplicitComponent(ImplicitComponent):
         if self._sparsity is None:
             if self._has_approx:
                 self._sparsity = super().compute_sparsity(direction=direction, num_iters=num_iters,
-                                                          perturb_size=perturb_size)[0]
+                                                          perturb_size=perturb_size)
             else:
-                self._sparsity = _compute_sparsity(self, direction, num_iters, perturb_size)[0]
+                self._sparsity = _compute_sparsity(self, direction, num_iters, perturb_size)
 
         return self._sparsity
 
@@ -495,9 +500,13 @@ class JaxImplicitComponent(ImplicitComponent):
         """
         if self._tangents[direction] is None:
             if direction == 'fwd':
-                self._tangents[direction] = get_vmap_tangents(tuple(chain(self._inputs.values(),
-                                                                          self._outputs.values())),
-                                                              direction, fill=1., coloring=coloring)
+                # coloring columns are in jacobian order (outputs, then inputs) but compute_primal
+                # takes the inputs first
+                nout = self._outputs.nvars()
+                tangents = get_vmap_tangents(tuple(chain(self._outputs.values(),
+                                                         self._inputs.values())),
+                                             direction, fill=1., coloring=coloring)
+                self._tangents[direction] = tangents[nout:] + tangents[:nout]
             else:
                 self._tangents[direction] = get_vmap_tangents(tuple(self._outputs.values()),
                                                               direction, fill=1., coloring=coloring)
